@@ -259,6 +259,29 @@ async fn run(mut sim: Sim, seed: u64, streams: usize) -> Result<Value, String> {
                 std::mem::forget(rx);
             }
         }
+        // well-formed requests that carry tens of thousands of headers (a few megabytes, within every
+        // limit): taking them in costs the victim no more than reading them - a handful of them does not
+        // bring the node to a halt (the run's real-time budget is what notices)
+        if round == 2 {
+            let t0 = std::time::Instant::now();
+            for _ in 0..4 {
+                if let Ok(Ok((mut tx, rx))) = tokio::time::timeout(Duration::from_secs(5), conn.open_bi()).await {
+                    let names: Vec<String> = (0..30_000).map(|i| format!("X-Meta-{i:05}-{}", rng.gen_range(0..1000))).collect();
+                    let hs: Vec<(&str, &str)> = names.iter().map(|n| (n.as_str(), "v")).collect();
+                    let req = valid_request("/hostile/many-headers", &hs, b"x");
+                    sim.run.obs(100, "adv.stream", json!({"class": 24, "len": req.len(), "ending": "30000-headers"}));
+                    let _ = tokio::time::timeout(Duration::from_secs(5), tx.write_all(&req)).await;
+                    let _ = tx.finish();
+                    std::mem::forget(tx);
+                    std::mem::forget(rx);
+                }
+            }
+            settle(&mut sim, 500).await;
+            let took = t0.elapsed().as_secs();
+            if took >= 20 {
+                return Err(format!("VIOLATION: four well-formed requests with 30 000 headers each kept the victim's thread busy for {took} s of real time (reading them takes a fraction of a second)"));
+            }
+        }
         settle(&mut sim, 200).await;
         // requests whose handlers are still running when the connection ends
         for _ in 0..rng.gen_range(0..9) {
